@@ -92,6 +92,9 @@ func c17Gadgets() []gadget {
 			return []byte{0x60, 20, 0x5b, 0x60, 1, 0x90, 0x03, 0x80, 0x60, dest, 0x57, 0x50}
 		}, false},
 		{"balance(new addr)->slot4", fixed(append(append(push20(sim.W("fresh-untouched").Addr), 0x31), hx2("600455")...)), false},
+		// the block and transaction context the contract sees: COINBASE NUMBER TIMESTAMP GASLIMIT CHAINID BASEFEE GASPRICE ORIGIN -> slots 5..12
+		{"block context->slots 5..12", fixed(hx2("41600555 43600655 42600755 45600855 46600955 48600a55 3a600b55 32600c55")), false},
+		{"call COINBASE value 1", fixed(hx2("6000 6000 6000 6000 6001 41 61ffff f1 50")), false},
 		{"return 0x2a", fixed(hx2("602a60005260206000f3")), true},
 		{"revert 1 byte", fixed(hx2("60016000fd")), true},
 		{"selfdestruct->U1", fixed(append(push20(u1), 0xff)), true},
@@ -347,7 +350,7 @@ func init() { engine.Register("C17", func() engine.Check { return &c17{} }) }
 func (c *c17) ID() string { return "C17" }
 func (c *c17) Meta() engine.Meta {
 	m := modelMeta("exhaustive program enumeration (gadget sequences) x history family on the real application, lock-step differential execution against a reference EVM world",
-		"C17: contracts assembled from 23 gadgets (SSTORE const, SLOAD+1, LOG1, BALANCE(EOA)->storage, BALANCE(never-seen address)->storage, CALL with value to an EOA / to another contract / to a reverting contract (with and without value) / to a contract that reads the BALANCE of a never-seen account and reverts / to a contract that reverts without value and accepts value / to itself with little gas, CREATE and CREATE2 of a child, CALLVALUE / SELFBALANCE -> storage, a gas-burning loop, RETURN data, REVERT data, SELFDESTRUCT to another account / to the caller / into itself (a burn by EVM definition)): ALL gadget sequences up to length 3 (quick) / 4 (thorough). Each program runs in 4 history families mixing: deployment with and without value, calls with and without value by two callers, a plain transfer to the contract, a plain transfer to a child the contract created, native transfers to and from the touched accounts before and after, staking by the caller, native credits landing BETWEEN two contract transactions of the same block that touch the credited account, blocks with and without proposer, and a vm_call query after every block. "+
+		"C17: contracts assembled from 25 gadgets (the block and transaction context COINBASE NUMBER TIMESTAMP GASLIMIT CHAINID BASEFEE GASPRICE ORIGIN -> storage, CALL with value to the COINBASE, SSTORE const, SLOAD+1, LOG1, BALANCE(EOA)->storage, BALANCE(never-seen address)->storage, CALL with value to an EOA / to another contract / to a reverting contract (with and without value) / to a contract that reads the BALANCE of a never-seen account and reverts / to a contract that reverts without value and accepts value / to itself with little gas, CREATE and CREATE2 of a child, CALLVALUE / SELFBALANCE -> storage, a gas-burning loop, RETURN data, REVERT data, SELFDESTRUCT to another account / to the caller / into itself (a burn by EVM definition)): ALL gadget sequences up to length 3 (quick) / 4 (thorough). Each program runs in 4 history families mixing: deployment with and without value, calls with and without value by two callers, a plain transfer to the contract, a plain transfer to a child the contract created, native transfers to and from the touched accounts before and after, staking by the caller, native credits landing BETWEEN two contract transactions of the same block that touch the credited account, blocks with and without proposer, and a vm_call query after every block. "+
 			"Oracle: mc/evmref = vanilla go-ethereum StateDB + core.ApplyMessage with the application's chain configuration and block context; balances and nonces are overwritten from the native-ledger model before every message and copied back after it. Compared per transaction: success/failure, return data (created address for deployments), gas used, logs; at every committed height: native balance and nonce of EVERY account of the reference world, contract code and storage of every contract (also children). A failing execution follows RIGO's own rule (no effect, no fee). vm_call: same result as a read-only reference call, and the complete state is unchanged by it.",
 		"go-ethereum's interpreter, StateDB and ApplyMessage are a dependency and trusted; what is judged is the repository's state-db wrapper and controller")
 	m.LevelName = "length of the gadget sequence"
